@@ -429,7 +429,18 @@ func runSimplifyF(api string, path Path, eps float64, closed bool, f float64) (P
 		case "SimplifyPath64":
 			res = from64(clipper.SimplifyPath64(to64(path), eps, closed))
 		case "SimplifyPaths64":
-			res = from64(clipper.SimplifyPaths64(clipper.Paths64{to64(path)}, eps, closed)[0])
+			// the path is the last of three: the others (a longer and a shorter ring whose odd vertices are exactly
+			// collinear, so every one of them is removed) must not influence it; their removals are counted first
+			// and skipped in the recorded removal order
+			d1, d2 := simplifyDecoy(len(path)+3), simplifyDecoy(4)
+			clipper.SimplifyPaths64(clipper.Paths64{d1, d2}, eps, closed)
+			skip := len(removed)
+			removed = removed[:0]
+			all := clipper.SimplifyPaths64(clipper.Paths64{d1, d2, to64(path)}, eps, closed)
+			res = from64(all[2])
+			if len(removed) >= skip {
+				removed = removed[skip:]
+			}
 		case "SimplifyPathD", "SimplifyPathsD":
 			pd := make(clipper.PathD, len(path))
 			for i, q := range path {
@@ -439,7 +450,14 @@ func runSimplifyF(api string, path Path, eps float64, closed bool, f float64) (P
 			if api == "SimplifyPathD" {
 				rd = clipper.SimplifyPathD(pd, eps, closed)
 			} else {
-				rd = clipper.SimplifyPathsD(clipper.PathsD{pd}, eps, closed)[0]
+				d1 := clipper.Path64ToPathD(simplifyDecoy(len(path) + 3))
+				clipper.SimplifyPathsD(clipper.PathsD{d1}, eps, closed)
+				skip := len(removed)
+				removed = removed[:0]
+				rd = clipper.SimplifyPathsD(clipper.PathsD{d1, pd}, eps, closed)[1]
+				if len(removed) >= skip {
+					removed = removed[skip:]
+				}
 			}
 			res = make(Path, len(rd))
 			for i, q := range rd {
@@ -451,6 +469,25 @@ func runSimplifyF(api string, path Path, eps float64, closed bool, f float64) (P
 		removed = []int{}
 	}
 	return res, removed, out
+}
+
+// simplifyDecoy: a convex ring of at least n vertices whose odd vertices are the exact mid-points of its even ones
+func simplifyDecoy(n int) clipper.Path64 {
+	m := (n + 1) / 2
+	if m < 3 {
+		m = 3
+	}
+	corners := make(clipper.Path64, m)
+	for i := range corners {
+		a := 2 * math.Pi * float64(i) / float64(m)
+		corners[i] = clipper.Point64{X: 2 * int64(math.Round(5000*math.Cos(a))), Y: 2 * int64(math.Round(5000*math.Sin(a)))}
+	}
+	d := make(clipper.Path64, 0, 2*m)
+	for i, c := range corners {
+		nx := corners[(i+1)%m]
+		d = append(d, c, clipper.Point64{X: (c.X + nx.X) / 2, Y: (c.Y + nx.Y) / 2})
+	}
+	return d
 }
 
 func execSimplify(r *rand.Rand, e *SimplifyEv) {
